@@ -25,9 +25,12 @@ CHUNK = 1
 COND_ROOT = ('run_experiment(name="e1", run="./e1.sh", args=["a"], options={"k": 1})\n'
              'combine(name="all_a", deps=[":e1", "//pkg:c", "//pkg/sub:e3"])\n'
              'combine(name="all_b", deps=["//pkg:c", "//pkg/sub:e3", ":e1"])\n'
-             'run_command(name="solo", run="./solo.sh")\ngroup(name="solos", deps=[":solo"])\n')
+             'run_command(name="solo", run="./solo.sh")\ngroup(name="solos", deps=[":solo"])\n'
+             # closures whose walk meets an already-visited task BEFORE an unvisited one in some deps list
+             'group(name="all_c", deps=["//pkg:g2", ":e1"])\ngroup(name="all_d", deps=[":e1", "//pkg:g3", "//pkg:g2"])\n')
 COND_PKG = ('run_experiment(name="e2", run="./e2.sh", deps=["//:e1"])\n'
-            'run_command(name="c", run="./c.sh", deps=[":e2"])\n')
+            'run_command(name="c", run="./c.sh", deps=[":e2"])\n'
+            'group(name="g2", deps=["//:e1", "//pkg/sub:e3"])\ngroup(name="g3", deps=["//pkg/sub:e3", "//:e1", ":e2"])\n')
 COND_SUB = 'run_experiment(name="e3", run="./e3.sh")\ngroup(name="only", deps=[":e3"])\n'
 FILES = {"COND": COND_ROOT, "pkg/COND": COND_PKG, "pkg/sub/COND": COND_SUB}
 ARCHIVABLE = {"//:e1", "//pkg:e2", "//pkg/sub:e3"}
@@ -35,6 +38,8 @@ CLOSURE = {
     None: None,
     "//:all_a": {"//:e1", "//pkg:e2", "//pkg/sub:e3"},
     "//:all_b": {"//:e1", "//pkg:e2", "//pkg/sub:e3"},
+    "//:all_c": {"//:e1", "//pkg/sub:e3"},
+    "//:all_d": {"//:e1", "//pkg:e2", "//pkg/sub:e3"},
     "//:e1": {"//:e1"},
     "//pkg:e2": {"//:e1", "//pkg:e2"},
     "//pkg:c": {"//:e1", "//pkg:e2"},
